@@ -27,18 +27,19 @@ import (
 func init() {
 	Register(&Prop{
 		ID:    "C11",
-		Chunk: 8,
-		Race:  true,
+		Chunk:    8,
+		Race:     true,
+		NeedsCLI: true,
 		Count: func(c *Ctx) int {
 			if c.Thorough() {
-				return 4800
+				return 4680
 			}
-			return 240
+			return 312
 		},
 		Rule: "case = one threaded entry point (Compare plain/tips/identical-only, CompareWeighted, FBP, TBE, TBE with moved-taxa statistics) x one " +
 			"workload (8 trees x 12 taxa, 100 x 30, 400 x 60) x one delay policy at the verifhook points (none, random yield/sleep, one slow worker, " +
 			"barrier after the first receive), run with 1 thread and then with 2,3,4,8,16 and #trees+5 threads under the race detector; error cases put an " +
-			"Err item, a duplicate-name tree or a taxon-mismatched tree first, in the middle or last. Monitors: per-id equality with the 1-thread " +
+			"Err item, a duplicate-name tree or a taxon-mismatched tree first, in the middle or last; the commands compare trees (plain, --weighted) and compute support fbp|tbe are run as child processes (-t 1, 4, 16) on a file with one unparsable / duplicate-name / taxon-mismatched tree: non-zero exit, no crash, no blocked process. Monitors: per-id equality with the 1-thread " +
 			"records, exactly-once multiset checker over results and hook events, goroutine-state deadlock detector, race-log parser. " +
 			"non-trivial = at least two workers held a tree at the same time in some run of the case (measured from the hook event log), or, for TBE, " +
 			"per-branch hook events were seen with > 1 thread; distinct by (entry point, workload text, policy)",
@@ -400,8 +401,15 @@ func runC11(c *Ctx, idx int, o *Obs) {
 	r := c.Rng("C11", idx)
 	nNormal := len(c11Fns) * len(c11Workloads) * len(c11Policies) // 84
 	nErr := 4 * 3 * 3                                             // 36
-	k := idx % (nNormal + nErr)
-	rep := idx / (nNormal + nErr)
+	nCLI := 4 * 3 * 3                                             // 36: the commands, fed an erroneous stream
+	k := idx % (nNormal + nErr + nCLI)
+	rep := idx / (nNormal + nErr + nCLI)
+	if k >= nNormal+nErr {
+		k -= nNormal + nErr
+		c11CLIError(c, o, r, []string{"compare trees", "compare trees --weighted", "compute support fbp", "compute support tbe"}[k%4],
+			[]string{"garbage", "dupname", "mismatch"}[(k/4)%3], []string{"first", "middle", "last"}[(k/12)%3], rep)
+		return
+	}
 	if k < nNormal {
 		fn := c11Fns[k%len(c11Fns)]
 		wl := c11Workloads[(k/len(c11Fns))%len(c11Workloads)]
@@ -608,4 +616,61 @@ func minInt(a, b int) int {
 		return a
 	}
 	return b
+}
+
+// c11CLIError: the shipped commands on a stream that contains one erroneous tree: the error must reach the
+// caller (non-zero exit), without a crash and without a hang.
+func c11CLIError(c *Ctx, o *Obs, r *rand.Rand, cmdline, et, pos string, rep int) {
+	ntrees, ntax := gen.Pick(r, 6, 9, 20), gen.Pick(r, 8, 12, 20)
+	refText, boots := c11Trees(r, ntrees, ntax)
+	var bad string
+	switch et {
+	case "garbage":
+		bad = "((a,b),(c,d)));"
+	case "dupname":
+		t := mustParse(boots[0])
+		tips := t.Tips()
+		tips[1].SetName(tips[0].Name())
+		bad = t.Newick()
+	default:
+		t := mustParse(boots[0])
+		t.Tips()[r.Intn(len(t.Tips()))].SetName("other_taxon")
+		bad = t.Newick()
+	}
+	at := map[string]int{"first": 0, "middle": ntrees / 2, "last": ntrees}[pos]
+	lines := append(append(append([]string{}, boots[:at]...), bad), boots[at:]...)
+	inp := fmt.Sprintf("gotree %s, %s tree at %s (line %d of %d)\nref: %s\ntrees:\n%s", cmdline, et, pos, at, len(lines), refText, strings.Join(lines, "\n"))
+	o.Sample = Trunc(inp, 400)
+	o.Class = "cli/" + cmdline + "/error-" + et + "-" + pos
+	o.SetFP("cli", cmdline, et, pos, refText, strings.Join(lines, "\n"))
+	o.Nontrivial = true
+	c.Announce(inp)
+	fr := tmpFile(c, "c11ref.nw", refText+"\n")
+	fb := tmpFile(c, "c11trees.nw", strings.Join(lines, "\n")+"\n")
+	tag := []string{"fn", "cli " + cmdline, "error", et}
+	for _, th := range []int{1, 4, 16} {
+		args := strings.Fields(cmdline)
+		if args[0] == "compare" {
+			args = append(args, "-i", fr, "-c", fb)
+		} else {
+			args = append(args, "-i", fr, "-b", fb, "--silent")
+		}
+		args = append(args, "-t", fmt.Sprint(th), "--seed", "1")
+		res := runCLIT(c, 60*time.Second, "", args...)
+		o.Ev("cli_runs", 1)
+		what := fmt.Sprintf("gotree %s -t %d, %s tree at %s", cmdline, th, et, pos)
+		if res.TimedOut {
+			// decided on the child's CPU seconds: a blocked process burns none
+			if res.CPU < 5 {
+				o.Fail("hang", fmt.Sprintf("%s: the command was still there after 60 s having used %.2f CPU seconds (blocked)", what, res.CPU), inp, tag...)
+			} else {
+				o.Inconclusive = what + ": wall-clock watchdog with the child still computing"
+			}
+			return
+		}
+		if !o.Check(!res.Panic && !res.Signal, "cli_crash", what+": "+res.brief(), inp, tag...) {
+			return
+		}
+		o.Check(res.Exit != 0, "error_not_reported", what+": exit status 0: the error did not reach the caller; stderr "+Trunc(res.Stderr, 300), inp, tag...)
+	}
 }
